@@ -96,3 +96,104 @@ def int_env_eval(node, env):
     if isinstance(v, (Opaque, NameRef)):
         raise AnalysisError(f"cannot evaluate `{ast.unparse(node)}` with {env}")
     return v
+
+
+# --------------------------------------------------------------------------- finfo model / rename-invariant local constants
+
+
+class FinfoSubst(ast.NodeTransformer):
+    """Replace numpy.finfo attributes, get_precision(dtype) and dtype(<expr>) wrappers by their IEEE meaning for one format."""
+
+    def __init__(self, bits, finfo_names=(), dtype_names=("dtype",)):
+        self.bits = bits
+        self.p = PREC[bits]
+        self.names = set(finfo_names)
+        self.dtype_names = set(dtype_names)
+        eb = EXPBITS[bits]
+        self.attrs = dict(negep=-self.p, machep=-(self.p - 1), nmant=self.p - 1, bits=bits, nexp=eb, iexp=eb,
+                          maxexp=2 ** (eb - 1), minexp=2 - 2 ** (eb - 1))
+        self.unknown = None
+
+    def _is_finfo(self, n):
+        if isinstance(n, ast.Name) and n.id in self.names:
+            return True
+        return isinstance(n, ast.Call) and (dotted(n.func) or "").endswith("finfo")
+
+    def visit_Attribute(self, n):
+        if self._is_finfo(n.value):
+            if n.attr not in self.attrs:
+                self.unknown = n.attr
+                return n
+            return ast.copy_location(ast.Constant(self.attrs[n.attr]), n)
+        return self.generic_visit(n)
+
+    def visit_Call(self, n):
+        d = dotted(n.func) or ""
+        if d.endswith("get_precision"):
+            return ast.copy_location(ast.Constant(self.p), n)
+        if d.endswith("get_maxexp"):
+            return ast.copy_location(ast.Constant(self.attrs["maxexp"]), n)
+        if d in self.dtype_names and len(n.args) == 1 and not n.keywords:
+            return self.visit(n.args[0])
+        return self.generic_visit(n)
+
+
+def finfo_names(func):
+    out = set()
+    for st in ast.walk(func):
+        if isinstance(st, ast.Assign) and isinstance(st.value, ast.Call) and (dotted(st.value.func) or "").endswith("finfo"):
+            out |= {t.id for t in st.targets if isinstance(t, ast.Name)}
+    return out
+
+
+def eval_for_format(node, bits, func=None, env=None):
+    """Value of an expression for one format under the finfo model (Opaque when it is not a constant)."""
+    from .core import fresh_copy
+
+    tr = FinfoSubst(bits, finfo_names(func) if func is not None else ())
+    e = tr.visit(fresh_copy(node))
+    if tr.unknown:
+        return Opaque(node, f"finfo.{tr.unknown} not modelled")
+    return ev(e, env or {})
+
+
+def local_env(func, bits, scopes=None, extra=None):
+    """Constant values of the local variables of `func` (and of the enclosing functions in `scopes`, outermost first) for one
+    format: simple assignments are evaluated in source order under the finfo model.  Names are whatever the code uses - the
+    environment is keyed by the code's own names, so callers never assume a spelling."""
+    env = dict(extra or {})
+    for f in list(scopes or []) + [func]:
+        fn = finfo_names(f)
+        stmts = sorted((st for st in ast.walk(f) if isinstance(st, ast.Assign) and len(st.targets) == 1 and isinstance(st.targets[0], ast.Name)),
+                       key=lambda st: (st.lineno, st.col_offset))
+        for st in stmts:
+            # statements of nested functions are evaluated when that function is the subject
+            owner = st
+            while owner is not None and not isinstance(owner, (ast.FunctionDef, ast.AsyncFunctionDef, ast.Lambda)):
+                owner = getattr(owner, "_parent", None)
+            if owner is not f:
+                continue
+            from .core import fresh_copy
+
+            tr = FinfoSubst(bits, fn)
+            e = tr.visit(fresh_copy(st.value))
+            if tr.unknown:
+                continue
+            v = ev(e, env)
+            if not isinstance(v, (Opaque, NameRef)):
+                env[st.targets[0].id] = v
+    return env
+
+
+def check_getters(r, repo, rule, rel="utils.py"):
+    """utils.get_precision / utils.get_maxexp (which FinfoSubst trusts) return the precision / maxexp of every format."""
+    from .core import loc, norm_src
+
+    for name, want in (("get_precision", lambda b: PREC[b]), ("get_maxexp", lambda b: EMAX[b] + 1)):
+        g = repo.func(rel, name)
+        rets = [n for n in ast.walk(g) if isinstance(n, ast.Return) and n.value is not None]
+        if len(rets) != 1:
+            raise AnalysisError(f"{rel}::{name}: expected one return")
+        for b in BITS:
+            v = eval_for_format(rets[0].value, b, g)
+            r.ob(rule, f"{rel}::{name} float{b}", v == want(b), f"`{norm_src(rets[0].value)}` gives {v}, expected {want(b)}", loc(rel, g))
